@@ -219,10 +219,17 @@ def diff_streams(model: str, ops: list[str], model_out: list[str], impl_out: lis
 
 
 def load_known() -> list[dict]:
+    """known_findings.json plus known_findings.d/*.json (same format); committed, never written at run time."""
+    res: list[dict] = []
     p = os.path.join(VERIF, "known_findings.json")
-    if not os.path.exists(p):
-        return []
-    return json.load(open(p))["findings"]
+    if os.path.exists(p):
+        res += json.load(open(p))["findings"]
+    d = os.path.join(VERIF, "known_findings.d")
+    if os.path.isdir(d):
+        for fn in sorted(os.listdir(d)):
+            if fn.endswith(".json"):
+                res += json.load(open(os.path.join(d, fn)))["findings"]
+    return res
 
 
 # --------------------------------------------------------------------------
